@@ -241,4 +241,40 @@ theorem runOne_hasNamed (st : St) (body : List BodyInp) (n : String) :
     obtain ⟨_, rfl⟩ := this
     exact ⟨u, rs, n, ks, h⟩
 
+/-- a descriptor is only ever emitted together with an event of the same stream -/
+theorem processEvent_nonempty (st : St) (c : Call) (s : String)
+    (h : ∃ u, (s, u) ∈ descsIn (processEvent st c).2) : evSeqs s (processEvent st c).2 ≠ [] := by
+  rcases processEvent_cases st c with e | ⟨du, _, e⟩ | ⟨_, e⟩
+  · rw [e] at h; simp [descsIn] at h
+  · rw [e] at h; simp [descsIn, evDoc] at h
+  · rw [e] at h ⊢
+    simp only [descsIn, descDoc, evDoc, List.filterMap_cons, List.filterMap_nil, List.mem_cons, Prod.mk.injEq,
+      List.not_mem_nil, or_false] at h
+    obtain ⟨u, hs, _⟩ := h
+    simp [evSeqs, descDoc, evDoc, hs]
+
+theorem runBody_nonempty (body : List BodyInp) (st : St) (s : String)
+    (h : ∃ u, (s, u) ∈ descsIn (runBody st body).2) : evSeqs s (runBody st body).2 ≠ [] := by
+  induction body generalizing st with
+  | nil => simp [runBody, descsIn] at h
+  | cons i is ih =>
+    obtain ⟨u, hu⟩ := h
+    simp only [runBody, descsIn, List.filterMap_append, List.mem_append] at hu
+    simp only [runBody, evSeqs_append]
+    rcases hu with hu | hu
+    · cases i with
+      | rawDescriptor uid name => simp [stepBody] at hu
+      | call c =>
+        have := processEvent_nonempty st c s ⟨u, hu⟩
+        intro hnil
+        exact this (List.append_eq_nil_iff.1 hnil).1
+    · have := ih (stepBody st i).1 ⟨u, hu⟩
+      intro hnil
+      exact this (List.append_eq_nil_iff.1 hnil).2
+
+theorem runOne_nonempty (st : St) (body : List BodyInp) (s : String)
+    (h : hasDescriptorFor s (runOne st body).2) : evSeqs s (runOne st body).2 ≠ [] := by
+  rw [evSeqs_runOne]
+  exact runBody_nonempty body (started st) s ((hasDescriptorFor_runOne st body s).1 h)
+
 end BlueskyVerif.LiveDispatcher
